@@ -37,13 +37,22 @@ def exc_name(e: BaseException) -> str:
 def impl_source(text: str):
     """c_file_source on a StringIO (no newline translation): logical lines as yielded."""
     fs = mods()["fs"]
+    # how parse_file classifies a yielded line (None if the implementation has no such helper any more:
+    # the node list of parse_file is then the only observation of the directive test)
+    is_dir = getattr(mods()["fp"].FileParser, "is_directive", None)
     src = fs.c_file_source(io.StringIO(text, newline=""))
     lines = []
     try:
         while True:
             ll = next(src)
             s, e = ll.phys_interval()
-            lines.append([list(ll.lines), ll.flushed_line, ll.category, s, e])
+            cat, flushed = ll.category, ll.flushed_line
+            lines.append([list(ll.lines), flushed, cat, s, e])
+            if is_dir is not None:
+                ll.category, ll.flushed_line = cat, flushed
+                lines[-1].append(bool(is_dir(ll)))
+            else:
+                lines[-1].append(None)
             if ll.local_sloc != len(ll.lines):
                 return {"exc": "local_sloc != len(lines)"}
     except StopIteration as stop:
